@@ -98,6 +98,7 @@ func NewPositionRange(lines []string, val *yaml.Node, minColumn int) (offsets Po
 
 	var needIndex, lineSpaces, valSpaces int
 	var consumed bool
+	var src string
 	need := val.Value[needIndex]
 	lineIndex := val.Line
 	columnIndex := val.Column
@@ -107,6 +108,9 @@ func NewPositionRange(lines []string, val *yaml.Node, minColumn int) (offsets Po
 	if val.Style&(yaml.LiteralStyle|yaml.FoldedStyle) != 0 {
 		lineIndex++
 		columnIndex = minColumn
+	} else if (val.Anchor != "" || val.Style&yaml.TaggedStyle != 0) && lineIndex <= len(lines) {
+		// Node properties (`&anchor`, `!!tag`) in front of the value are not a part of it.
+		columnIndex = skipProperties(lines[lineIndex-1], columnIndex)
 	}
 
 	for lineIndex <= len(lines) {
@@ -136,7 +140,17 @@ func NewPositionRange(lines []string, val *yaml.Node, minColumn int) (offsets Po
 			columnIndex += lineSpaces - valSpaces
 		}
 
-		for gotIndex, got := range []byte(lines[lineIndex-1][columnIndex-1:]) {
+		src = lines[lineIndex-1][columnIndex-1:]
+		for gotIndex := 0; gotIndex < len(src); gotIndex++ {
+			got := src[gotIndex]
+			// In double quoted scalars a backslash escape spells one character of the value,
+			// the position of that character is the escaped letter.
+			if got == '\\' && val.Style&yaml.DoubleQuotedStyle != 0 && gotIndex+1 < len(src) {
+				if c, ok := unescape(src[gotIndex+1]); ok {
+					gotIndex++
+					got = c
+				}
+			}
 			if need == got {
 				offsets = appendPosition(offsets, lineIndex, columnIndex+gotIndex)
 				needIndex++
@@ -164,6 +178,46 @@ func NewPositionRange(lines []string, val *yaml.Node, minColumn int) (offsets Po
 
 END:
 	return offsets
+}
+
+// skipProperties returns the column of the first character after any `&anchor` and `!tag` tokens.
+func skipProperties(line string, column int) int {
+	for column <= len(line) && (line[column-1] == '&' || line[column-1] == '!') {
+		for column <= len(line) && line[column-1] != ' ' && line[column-1] != '\t' {
+			column++
+		}
+		for column <= len(line) && (line[column-1] == ' ' || line[column-1] == '\t') {
+			column++
+		}
+	}
+	return column
+}
+
+// unescape returns the character spelled by a single letter YAML escape sequence.
+func unescape(c byte) (byte, bool) {
+	switch c {
+	case 'n':
+		return '\n', true
+	case 't':
+		return '\t', true
+	case 'r':
+		return '\r', true
+	case '0':
+		return 0, true
+	case 'a':
+		return '\a', true
+	case 'b':
+		return '\b', true
+	case 'e':
+		return 0x1b, true
+	case 'f':
+		return '\f', true
+	case 'v':
+		return '\v', true
+	case '"', '/', '\\', ' ', '\t':
+		return c, true
+	}
+	return 0, false
 }
 
 func countLeadingSpace(line string) (i int) {
